@@ -255,3 +255,21 @@ def createFailingOld (f : Frag) (pos : Nat) (uuid : String) (outer : Entry) (nes
 def keysOf (f : Frag) : List String := f.idc.map (·.1)
 
 end Capella.Index
+
+namespace Capella.Index
+
+/-- `WritableAccessor._create` / `LinkAccessor.__create_link` (success path): `new_uuid` draws and
+reserves an id in the parent's fragment, the new element carrying that id is attached at `pos` and
+indexed. `mk` builds the element from the id (tag, type and attributes are irrelevant to the index). -/
+def apiCreate (l : Loader) (fi pos : Nat) (want : Option String) (cands : List String)
+    (mk : String → Entry) : Except Err (Loader × String) := do
+  let (l1, k) ← generateUuid l fi want cands
+  let l2 ← step l1 (.attach fi pos [mk k])
+  pure (l2, k)
+
+/-- `DirectProxyAccessor._delete` / `LinkAccessor.delete` at the index level: every removed subtree
+(the target and the purged link elements), each in its fragment, is un-indexed and detached. -/
+def apiDelete (l : Loader) (segs : List (Nat × List Entry)) : Except Err Loader :=
+  run l (segs.map (fun (fi, seg) => Op.detach fi seg))
+
+end Capella.Index
